@@ -1,12 +1,22 @@
 package main
 
+import (
+	"fmt"
+	"go/ast"
+	"strings"
+)
+
 func init() { register("C01", genC01) }
 
 // genC01 emits the bodies of the functions the C01 / C02 models transcribe (WAL append, switch,
 // file order at start-up, serial replay, the flush protocol) so that Facts.lean can compare them
-// with the text the model was written against.
+// with the text the model was written against, and the *sync discipline* of the write path as
+// facts: which calls follow which (append -> Sync before the acknowledgement when
+// wal-sync-interval is 0; data file: buffered writes -> Sync -> rename; the old WAL files are
+// synced and closed at the switch and removed only after the commit), with the one decision it
+// hangs on (LogWriter.trySync) translated into a Lean definition.
 func genC01(g *Gen) error {
-	g.Header("engine/wal.go", "engine/ts_storage.go")
+	g.Header("engine/wal.go", "engine/log_writer.go", "engine/ts_storage.go", "engine/shard.go", "engine/wal_manager.go", "engine/immutable/writer.go", "engine/immutable/mms_tables.go")
 	g.GenNS()
 	for _, f := range [][3]string{
 		{"engine/wal.go", "WAL.writeBinary", "writeBinary"},
@@ -15,12 +25,96 @@ func genC01(g *Gen) error {
 		{"engine/wal.go", "consumeRecordSerial", "consumeRecordSerial"},
 		{"engine/wal.go", "WAL.replayOnePartition", "replayOnePartition"},
 		{"engine/ts_storage.go", "tsstoreImpl.writeSnapshot", "writeSnapshot"},
+		{"engine/log_writer.go", "LogWriter.trySync", "trySync"},
+		{"engine/log_writer.go", "LogWriter.sync", "sync"},
+		{"engine/log_writer.go", "LogWriter.closeCurrentFile", "closeCurrentFile"},
+		{"engine/log_writer.go", "LogWriter.Switch", "LogWriterSwitch"},
+		{"engine/log_writer.go", "LogWriter.trySwitchFile", "trySwitchFile"},
+		{"engine/wal_manager.go", "removeWalFiles", "removeWalFiles"},
+		{"engine/immutable/mms_tables.go", "RenameTmpFiles", "RenameTmpFiles"},
 	} {
 		fd, err := g.Func(f[0], f[1])
 		if err != nil {
 			return err
 		}
 		g.P("def src_%s : String := %s", f[2], leanStr(g.Src(fd.Body)))
+	}
+	g.P("")
+	// call orders
+	for _, f := range []struct {
+		rel, fn, name string
+		keep      []string
+	}{
+		{"engine/log_writer.go", "LogWriter.Write", "calls_LogWriterWrite", []string{"w.trySwitchFile", "w.currentFd.Write", "w.trySync", "w.currentFd.Sync"}},
+		{"engine/log_writer.go", "LogWriter.closeCurrentFile", "calls_closeCurrentFile", []string{"w.currentFd.Sync", "w.currentFd.Close"}},
+		{"engine/log_writer.go", "LogWriter.Switch", "calls_LogWriterSwitch", []string{"w.closeCurrentFile"}},
+		{"engine/shard.go", "shard.writeRows", "calls_writeRows", []string{"s.activeTbl.MTable.WriteRows", "s.wal.Write"}},
+		{"engine/wal.go", "WAL.Write", "calls_WALWrite", []string{"l.writeBinary"}},
+		{"engine/ts_storage.go", "tsstoreImpl.writeSnapshot", "calls_writeSnapshot", []string{"s.wal.Switch", "s.indexBuilder.Flush", "s.commitSnapshot", "RemoveWalFiles"}},
+		{"engine/immutable/writer.go", "tsspFileWriter.Close", "calls_tsspWriterClose", []string{"w.fileWriter.Close", "w.cmw.Close", "w.fd.Sync"}},
+		{"engine/immutable/mms_tables.go", "RenameTmpFiles", "calls_RenameTmpFiles", []string{"f.FreeFileHandle", "f.Rename"}},
+		{"engine/shard.go", "shard.syncReplayWal", "calls_syncReplayWal", []string{"s.wal.Replay", "s.ForceFlush", "s.wal.Remove"}},
+	} {
+		fd, err := g.Func(f.rel, f.fn)
+		if err != nil {
+			return err
+		}
+		keep := map[string]bool{}
+		for _, k := range f.keep {
+			keep[k] = true
+		}
+		var calls []string
+		ast.Inspect(fd.Body, func(n ast.Node) bool {
+			if ce, ok := n.(*ast.CallExpr); ok {
+				if s := g.Src(ce.Fun); keep[s] {
+					calls = append(calls, s)
+				}
+			}
+			return true
+		})
+		g.StrList(f.name, calls)
+	}
+	g.P("")
+	// LogWriter.trySync: synchronous exactly when SyncInterval == 0
+	fd, err := g.Func("engine/log_writer.go", "LogWriter.trySync")
+	if err != nil {
+		return err
+	}
+	if len(fd.Body.List) < 2 {
+		return fmt.Errorf("C01: LogWriter.trySync changed shape")
+	}
+	is, ok := fd.Body.List[0].(*ast.IfStmt)
+	if !ok || len(is.Body.List) != 1 || g.Src(is.Body.List[0]) != "return w.sync()" || is.Else != nil {
+		return fmt.Errorf("C01: LogWriter.trySync no longer starts with the synchronous case: %s", g.Src(fd.Body.List[0]))
+	}
+	c := &c02{g: g}
+	cond, err := c.sub(is.Cond, map[string]string{"w.SyncInterval": "syncInterval"})
+	if err != nil {
+		return err
+	}
+	rest := ""
+	for _, s := range fd.Body.List[1:] {
+		rest += g.Src(s) + " ; "
+	}
+	if !strings.Contains(rest, "go func() { _ = w.sync() }()") {
+		return fmt.Errorf("C01: LogWriter.trySync: the asynchronous case changed: %s", rest)
+	}
+	g.P("/-- `LogWriter.trySync`: 0 = the append is followed by `Sync` before `Write` returns, 1 = a")
+	g.P("background task syncs later. -/")
+	g.P("def trySyncMode (syncInterval : Int) : Nat := if %s then 0 else 1", cond)
+	// LogWriter.sync, the synchronous case
+	fd, err = g.Func("engine/log_writer.go", "LogWriter.sync")
+	if err != nil {
+		return err
+	}
+	for _, s := range fd.Body.List {
+		if is, ok := s.(*ast.IfStmt); ok && g.Src(is.Cond) == "w.SyncInterval == 0" {
+			b := g.Src(is.Body)
+			if !strings.Contains(b, "w.currentFd.Sync()") || !strings.HasSuffix(strings.TrimSuffix(b, " }"), "return err") {
+				return fmt.Errorf("C01: LogWriter.sync: the synchronous case does not sync and return: %s", b)
+			}
+			g.P("def syncNow_body : String := %s", leanStr(b))
+		}
 	}
 	g.Footer()
 	return nil
